@@ -436,7 +436,11 @@ def write_summary_file_vue(stats, filepath, year=2025, currency_format="${amount
     }
 
     # Assemble final HTML
-    data_script = f'window.spendingData = {json.dumps(spending_data)};'
+    # The data lands inside a <script> element: "</script" (in any letter case) or "<!--" in a
+    # description, merchant name or tag would end or derail that element for the HTML parser.
+    # The escaped forms are the same characters for a JavaScript or JSON parser.
+    data_json = json.dumps(spending_data).replace('</', '<\\/').replace('<!--', '\\u003c!--')
+    data_script = f'window.spendingData = {data_json};'
 
     if not embedded_html:
         # Write separate files for easier development
@@ -468,12 +472,14 @@ def write_summary_file_vue(stats, filepath, year=2025, currency_format="${amount
         )
     else:
         # Embed everything inline (default)
+        # The data goes in last: user text that happens to contain a placeholder comment
+        # must not be replaced by the stylesheet or the application script
         final_html = html_template.replace(
             '/* CSS_PLACEHOLDER */', css_content
         ).replace(
-            '/* DATA_PLACEHOLDER */', data_script
-        ).replace(
             '/* JS_PLACEHOLDER */', js_content
+        ).replace(
+            '/* DATA_PLACEHOLDER */', data_script
         )
 
     # Write output file
